@@ -119,6 +119,18 @@ CHECKS = {
    note="Trusted: induction over tree height; the select predicate is pure; the loop rule with accumulator (vc/pyvc/seqs.py). Bounded only: "
         "reflexive/symmetric/permutation-insensitive/value-sensitive equality, deepcopy/pickle/serialise-and-parse copies.",
    technique="contract-based deductive verification: AST->z3 VCs (pyvc) with a recursive contract; bounded stand-in"),
+ "C10": dict(
+   category="proof", design_ref="DESIGN.md section 8 C10",
+   text="Order: property_items is proved (pyvc, recursive contract) to emit BEGIN, the values in sorted_keys() / keys() order with list "
+        "entries and subcomponents in insertion order, END of the same name, for both values of `sorted`; canonsort_keys / sorted_keys / "
+        "Parameters.to_ical / content_lines are matched against their canonical shapes, which with the assumed contract of sorted() makes "
+        "the output a function of the key set. Purity: a static modifies-nothing analysis of every function reachable from "
+        "Component.to_ical (52 functions incl. every to_ical) shows no write to, and no mutating call on, anything reachable from self; "
+        "determinism: none of them calls hash/id/random/time or iterates a set unsorted. Permuted insertion histories, double "
+        "serialisation with state snapshots and runs under different PYTHONHASHSEED are a labelled bounded stand-in.",
+   note="Trusted: sorted() contract, dict insertion order, the conservative static frame analysis and its name-based call graph, the shape "
+        "rules (a function that leaves its shape is undecided, never proved). Balanced nesting assumes no property is named BEGIN/END.",
+   technique="contract-based deductive verification: pyvc order obligations + static frame (modifies {}) and determinism analysis over the real AST; bounded stand-in"),
 }
 NA_REASON = "check not built yet (build round in progress; DESIGN.md section 8 describes the planned contracts)"
 
